@@ -142,6 +142,24 @@ def run_models(ctx: Ctx):
                 if spec['extra'] and tr:
                     pass
                 ret = [[q(vals[k]) for k in unames], [q(vals[k]) for k in znames]]
+            # --- anderson_mem = 1 is the plain iteration (hypothesis plain_mix of C06_plain_iteration_converges): every sweep starts from
+            # the previous sweep's result; and for an affine contraction the sample is returned within the m sweeps the theorem promises
+            # (smallest m with |A|^m * first residual <= tol), whenever the limit allows m
+            if amem == 1 and tr and all(len(d['c']) == size and len(d['y']) == size for d in tr):
+                for t in range(1, len(tr)):
+                    if any(abs(tr[t]['c'][k] - tr[t - 1]['y'][k]) > 1e-12 * (1 + abs(tr[t - 1]['y'][k])) for k in unames):      # up to the rounding of the mixing step
+                        ctx.violate('C06:anderson_mem=1-is-not-the-plain-iteration', f'sample {s}, sweep {t} starts from {tr[t]["c"]}, the previous sweep '
+                                    f'returned {tr[t - 1]["y"]}', {**case, 'sample': s}); break
+                if not nonlinear and 0 < normA < 1:
+                    r0 = max(abs(Fraction(tr[0]['y'][k]) - Fraction(tr[0]['c'][k])) for k in unames)
+                    m_, bound = 0, r0
+                    while bound > Fraction(FTOL) and m_ < 400:
+                        bound = bound * inf_norm(A); m_ += 1
+                    if m_ + 1 <= maxit and (nan_loop or len(tr) > m_ + 2):       # one sweep of slack for rounding at the threshold
+                        ctx.violate('C06:plain-iteration-slower-than-the-contraction-bound', f'sample {s}: |A| = {normA}, first residual {float(r0)}: the '
+                                    f'theorem promises a result after at most {m_} further sweeps (limit {maxit}); observed {len(tr)} sweeps, '
+                                    f'{"NaN" if nan_loop else "returned"}', {**case, 'sample': s})
+                    ctx.count('contraction_bounds_checked')
             # --- correspondence: the recorded sweeps of this sample through the extracted checker
             if tr and all(len(d['c']) == size and len(d['y']) == size for d in tr):
                 # skip runs where a residual is within rounding of the tolerance (the float comparison could go either way)
